@@ -14,6 +14,12 @@ the same output-level demands (every element exactly once, order, stability, rev
 functions never walk an argument that is not a list or tuple (that would change what the
 engine sees) and are diagnosis only.  Part E enters the same compiled template again from
 inside its own sorted loop and compares both activations with their stand-alone renderings.
+
+In every part the keys are not only called k1, k2: two cases in three take names of another
+spelling class (vlib/c13_util.py NAME_CLASSES), most of them with a decoy attribute whose name is a
+case variant of the key name, and half of them with namespace variables called like the keys.  The
+pairwise oracle goes on to the next key when a key is None/missing on both sides (lexicographic
+order); only when no key decides is such a pair "in unspecified mutual order".
 """
 import itertools
 
@@ -50,12 +56,27 @@ RULE = ('A: every list of length 0..5 (thorough 0..6) over a 3-value key domain 
         'recursive tree or site map does), plain / reversed / batched: both activations must show what '
         'they show when rendered alone.  Non-trivial: at least two elements '
         '(every 2-element list decides an order or a tie); distinct = distinct (spec, route, kind, '
-        'delivery, container, key types, rows, reverse mode, window, sequence origin, tag spelling).')
+        'delivery, container, key types, rows, reverse mode, window, sequence origin, tag spelling, key names, '
+        'decoy, shadowing).  Key names: in every part one keyed case in three calls its keys k1,k2; the others '
+        'take, with the spread case counter, one of the name classes {Capitalised, camelCase, UPPER, '
+        'underscore/digit, a word of the spec language (cmp, nocase, asc, desc, sort, reverse ...), names '
+        'differing only in case (Title,title), non-ASCII, and -- for mapping elements -- names that are no '
+        'identifiers (sort-key, "my key", a.b, x:y)} (which entry of a class a shard uses is fixed per '
+        'shard), one of the decoy spellings {none, lower, upper, swapcase, capitalize}: every element then '
+        'also carries an attribute / mapping key spelled that way whose values run the other way round and '
+        'which is present where the key is missing, and (one in two) variables called like the keys in the '
+        'namespace the template is called with.  The seeded parts C, D, E also draw three-key specs.')
 ASSUMPTIONS = [
     'under /desc the statement does not say whether None/missing keys stay first or are inverted to '
     'the end: either is accepted, but one reading per key for the whole list',
-    'pairs whose deciding key is None/missing on both sides are in "unspecified mutual order": '
-    'nothing is demanded of them, also not by a later key',
+    'a key that is None/missing on both sides does not tell two elements apart: "sort=k1,k2 orders '
+    'lexicographically", so the next key of the spec decides their order (None/missing = one smallest '
+    'value); if no key of the spec decides and one was None/missing on both sides the pair is "in '
+    'unspecified mutual order" and nothing is demanded of it, not even the input order',
+    'specs of three keys (seeded parts only) are held to the same lexicographic rule as sort=k1,k2',
+    'the key is the attribute / mapping key of the ELEMENT spelled exactly as in the spec: another '
+    'attribute whose name differs in case, or a namespace variable of the same name, must not matter; '
+    'the function and direction words are only written in lower case (other spellings are not stated)',
     'element sorts (empty sort, sequence-item) are only run on None-free elements: the None-first '
     'rule is stated for keys of sort=key; sort_expr yielding the word "sequence-item" is not run',
     '/nocase only with str keys; locale comparators and user-defined comparison functions are not '
@@ -94,6 +115,7 @@ ISORT_KINDS = ['plain', 'cmpobj', 'pair']
 ISORT_FORMS = ['sort', 'sort=""', 'sort=sequence-item']
 CONTAINERS = ['list', 'watched', 'tuple']
 REVMODES = ['reverse', 'reverse_expr1', 'reverse_expr0']
+SHADOW = 'shadow'      # value of a namespace variable called like a key (see namespace())
 MECH_NONBASIC = 'single-key-nonbasic-type-becomes-smallest'
 MECH_NOCASE_NONE = 'nocase-none-key'
 
@@ -280,6 +302,11 @@ def namespace(case, src, seq, revmode, batch):
         ns['rv'] = 0
     if batch:
         ns['st'], ns['sz'] = batch
+    if case.get('shadow') and not case['isort'] and case['spec'] is not None:
+        # variables of the same names as the keys in the namespace the template is called with:
+        # the key is the attribute / mapping key of the ELEMENT
+        for nm in U.key_names(case):
+            ns.setdefault(nm, SHADOW)
     return ns
 
 
@@ -386,6 +413,11 @@ def report(ctx, vcase, problems, src, out, extra=None):
                   key='%s_%s' % ('+'.join(symptoms), vcase['tag']), detail=detail)
 
 
+def spec_class(case):
+    return '%d keys, %s' % (len(case['fields']),
+                            'function or direction named' if '/' in case['spec'] else 'names only')
+
+
 def run_case(ctx, mon, templates, case, counter):
     """Plain + reversed + batched rendering of one input."""
     log = U.Log()
@@ -408,7 +440,8 @@ def run_case(ctx, mon, templates, case, counter):
         st, sz = 1, 2
     ctx.case((case['tag'], case['route'], case['kind'], case.get('delivery'), case['container'],
               tuple(case['ktypes']), tuple(map(tuple, case['rows'])), revmode, over_rev, st, sz,
-              case.get('seqfrom', 'name'), case.get('syntax', 'dtml')),
+              case.get('seqfrom', 'name'), case.get('syntax', 'dtml'),
+              case['spec'], case.get('decoy'), case.get('shadow')),
              nontrivial=n >= 2)
     for j, kt in enumerate(case['ktypes']):
         form = case['form'] if case['isort'] else U.field_text('k', *fields[j])
@@ -433,15 +466,32 @@ def run_case(ctx, mon, templates, case, counter):
     src0 = source(case, None, None)
     # ---- order, stability, None placement
     if case['spec'] is not None or case['isort']:
+        stats = {}
         try:
-            probs, reading = U.check_order(plain, fields)
+            probs, reading = U.check_order(plain, fields, stats)
         except U.Incomparable as e:
             ctx.inconclusive('generator produced incomparable keys %r' % (e,))
             return
         ctx.count('oracle:order evaluations')
         ctx.count('oracle:pairs compared', n * (n - 1) // 2)
+        if stats.get('later'):
+            ctx.count('oracle:pairs with a key None/missing on both sides decided by a later key', stats['later'])
+            ctx.table('later key decides after a key missing on both sides',
+                      '%d keys | %s' % (len(fields), 'function or direction named' if '/' in (case['spec'] or '')
+                                        else 'names only'))
+        if stats.get('unspecified'):
+            ctx.count('oracle:pairs in unspecified mutual order (no key decides, one None/missing on both sides)',
+                      stats['unspecified'])
         if n >= 2:
             ctx.table('container x sort', '%s | %s' % (cont, sclass))
+            if not case['isort']:
+                ctx.table('key names x spec', '%s | %s' % (case.get('names', 'k1,k2'), spec_class(case)))
+                ctx.table('decoy attribute (case variant of the key name)', case.get('decoy') or 'none')
+                if case.get('shadow'):
+                    ctx.count('oracle:order decided with namespace variables called like the keys')
+                if case.get('decoy') and any(U.decoy_name(nm, case['decoy'], U.key_names(case))
+                                             for nm in U.key_names(case)):
+                    ctx.count('oracle:order decided with a decoy attribute on every element')
         for i, (fn, d) in enumerate(fields):
             if d == 'desc':
                 ks = [r.keys[i] for r in rows]
@@ -505,6 +555,45 @@ def run_case(ctx, mon, templates, case, counter):
 
 
 # ---------------------------------------------------------------- case construction
+def mix(c):
+    """spreads the case counter (deterministic): what is picked with it does not march in step with
+    the enumeration of the lists."""
+    c = (c + 0x9e37) * 2654435761 & 0xffffffff
+    c ^= c >> 15
+    c = c * 2246822519 & 0xffffffff
+    return c ^ (c >> 13)
+
+
+NAME_SALT = [0]     # the shard number: which entry of a name class (and from which position on) this shard uses
+
+
+def name_keys(case, counter):
+    """how the keys of the case are called (vlib/c13_util.py NAME_CLASSES): one case in three keeps
+    k1,k2; the others take a name class and a decoy spelling with the (spread) case counter.  Which
+    entry of the class, and from which of its three names on, is fixed per shard (every distinct spec
+    text is one more template to compile: the shards share the spellings among them)."""
+    m = mix(counter)
+    if m % 3 == 0:
+        case['names'], case['decoy'] = 'k1,k2', None
+        return
+    m //= 3
+    classes = [c for c in U.NAME_CLASS_LIST[1:]
+               if c not in U.MAPPING_ONLY_NAMES or case['kind'] in ('map', 'pairmap')]
+    ci = m % len(classes)
+    cls = classes[ci]
+    m //= len(classes)
+    entries = U.NAME_CLASSES[cls]
+    salt = NAME_SALT[0] + ci
+    entry = entries[salt % len(entries)]
+    off = (salt // len(entries)) % 3
+    for j, f in enumerate(case['fields']):
+        f[0] = entry[(off + j) % 3]
+    case['names'] = cls
+    case['decoy'] = U.DECOYS[m % len(U.DECOYS)]
+    case['shadow'] = bool((m // len(U.DECOYS)) % 2)
+    case['spec'] = U.spec_text(case['fields'])
+
+
 def rotate(case, counter):
     """choices that rotate with the case counter (deterministic, no rng)."""
     c = counter
@@ -515,8 +604,11 @@ def rotate(case, counter):
     elif case['spec'] is None:
         case['route'] = 'none'
     else:
+        name_keys(case, counter)
         routes = ['sort', 'sort_expr', 'sort_unq'] if ',' not in case['spec'] else ['sort', 'sort_expr']
         case['route'] = routes[c % len(routes)]
+        if case['route'] == 'sort_unq' and not U.unquotable(case['spec']):
+            case['route'] = 'sort'
     return case
 
 
@@ -613,12 +705,20 @@ def seeded_case(rng, counter):
         fields = [rng.choice(U.forms_for(kt))]
         rows = [[entry(nvals)] for _ in range(n)]
         kts = [kt]
-    else:
+    elif r < 0.88:
         kt2 = rng.choice(U.KTYPES)
         fields = [rng.choice(U.forms_for(kt)), rng.choice(U.forms_for(kt2))]
         # few distinct first keys so that the second key decides often
         rows = [[entry(min(nvals, 2)), entry(len(U.KEYDOM[kt2]))] for _ in range(n)]
         kts = [kt, kt2]
+    else:
+        # three keys: the same lexicographic rule once more (two values per key, so that the third
+        # key decides often)
+        kts = [kt, rng.choice(U.KTYPES), rng.choice(U.KTYPES)]
+        fields = [rng.choice(U.forms_for(t)) for t in kts]
+        if rng.random() < 0.25:
+            fields = [(None, None)] * 3          # names only: the engine's other sorting route
+        rows = [[entry(min(len(U.KEYDOM[t]), 2)) for t in kts] for _ in range(n)]
     case = {'tag': 'C:key%d' % len(kts), 'isort': False, 'ktypes': kts,
             'fields': [['k%d' % (j + 1), f[0], f[1]] for j, f in enumerate(fields)],
             'kind': kind, 'delivery': delivery, 'rows': rows, 'small': False}
@@ -842,6 +942,7 @@ def make_reach():
 
 
 def run(ctx, spec):
+    NAME_SALT[0] = ctx.shard
     reach = make_reach()
     reach.start()
     mon = SortMonitor(ctx)
@@ -897,9 +998,30 @@ def finish(agg):
               'oracle:reverse law evaluations', 'oracle:batch law evaluations',
               'oracle:cases with None/missing keys', 'oracle:cases with tied keys',
               'oracle:re-entered activation compared with the same rendering alone (outer)',
-              'oracle:re-entered activation compared with the same rendering alone (inner)'):
+              'oracle:re-entered activation compared with the same rendering alone (inner)',
+              'oracle:pairs with a key None/missing on both sides decided by a later key',
+              'oracle:order decided with a decoy attribute on every element',
+              'oracle:order decided with namespace variables called like the keys'):
         if not c.get(k):
             inc.append('deciding monitor never evaluated: ' + k)
+    # a later key deciding after a key that both elements miss: with and without a named function
+    lk = t.get('later key decides after a key missing on both sides', {})
+    for k in ('2 keys | names only', '2 keys | function or direction named',
+              '3 keys | names only', '3 keys | function or direction named'):
+        if not lk.get(k):
+            inc.append('a later key never decided after a key missing on both sides: ' + k)
+    # every way of calling the keys, in specs with and without a "/", with one and with two keys
+    kn = t.get('key names x spec', {})
+    gaps = ['%s | %s' % (cls, sc) for cls in U.NAME_CLASS_LIST
+            for sc in ('1 keys, names only', '1 keys, function or direction named',
+                       '2 keys, names only', '2 keys, function or direction named')
+            if not kn.get('%s | %s' % (cls, sc))]
+    if gaps:
+        inc.append('key names never decided on lists of >= 2 elements: %s' % ', '.join(gaps[:8]))
+    dc = t.get('decoy attribute (case variant of the key name)', {})
+    for d in U.DECOYS:
+        if not dc.get(d or 'none'):
+            inc.append('decoy spelling never run: %s' % (d or 'none'))
     # diagnosis: wrappers and anchors on engine internals (a renamed private function must not
     # make the run inconclusive when the comparisons above were made)
     for k in ('monitor:sort_sequence postcondition evaluations',
@@ -945,7 +1067,7 @@ def finish(agg):
                     inc.append('never rendered: %s as %s/%s' % (kt, kind, dl))
     for name, keys in (('route', ['sort', 'sort_unq', 'sort_expr']),
                        ('container', CONTAINERS + U.NEW_CONTAINERS),
-                       ('number of keys', ['0', '1', '2'])):
+                       ('number of keys', ['0', '1', '2', '3'])):
         for k in keys:
             if not t.get(name, {}).get(k):
                 inc.append('%s %s never exercised' % (name, k))
@@ -958,7 +1080,8 @@ def finish(agg):
                          'explanation': 'parts A and B are exhaustive over the lists of the stated '
                                         'lengths/domains for every (key type, spec form, kind, delivery) '
                                         'resp. (type pair, form pair); route, container, None '
-                                        'representation, reverse mode and batch window rotate; part C is '
+                                        'representation, reverse mode, batch window and the names of the keys '
+                                        '(with decoy attribute and namespace shadowing) rotate; part C is '
                                         'seeded and extra; part D is exhaustive over (container kind, '
                                         'key type, single-key form / element sort / no sort, list) resp. '
                                         '(type pair, form pair, list) for the stated lengths, the other '
